@@ -23,7 +23,34 @@ type VM struct {
 
 	backtrace []pos
 	frame     frame
+	imported  map[string]bool // packages whose top-level code has run in this VM, by import path
 	verifState
+}
+
+// pkgPath is the import path of a loaded package tree ("" for a tree without a package clause).
+func pkgPath(tok *token) string {
+	if len(tok.Tokens) == 0 || tok.Tokens[0].Symbol != "package" {
+		return ""
+	}
+	p := tok.Tokens[0]
+	if len(p.Tokens) > 1 {
+		return p.Tokens[1].Text
+	}
+	if len(p.Tokens) > 0 {
+		return p.Tokens[0].Text
+	}
+	return ""
+}
+
+func (v *VM) markImported(pkgs []*token) {
+	if v.imported == nil {
+		v.imported = map[string]bool{}
+	}
+	for _, p := range pkgs {
+		if path := pkgPath(p); path != "" {
+			v.imported[path] = true
+		}
+	}
 }
 
 func (v *VM) Set(key string, value Value) { v.globals.Set(key, value) }
@@ -40,7 +67,8 @@ func WithLoaders(v ...func(*VM)) VMOption { return func(c *vmConfig) { c.loaders
 
 func New(options ...VMOption) *VM {
 	vm := &VM{
-		globals: newGlobals(),
+		globals:  newGlobals(),
+		imported: map[string]bool{},
 	}
 	loadBuiltins(vm)
 	config := vmConfig{
@@ -97,9 +125,10 @@ func (v *VM) run(codes []instruction, slots int) (rets []Value, err error) {
 
 func (v *VM) Func(fnc Value, xRets int, params ...Value) (rets []Value, err error) {
 	vm := VM{
-		globals: v.globals,
-		stdout:  v.stdout,
-		stack:   append(params, fnc),
+		globals:  v.globals,
+		stdout:   v.stdout,
+		imported: v.imported,
+		stack:    append(params, fnc),
 		frame: frame{Codes: []instruction{{
 			Code: codeCall,
 			A:    reg(len(params)),
@@ -161,6 +190,7 @@ func (v *VM) Load(sys fs.FS, arg string, options ...RunOption) error {
 	if len(rets) > 0 {
 		return fmt.Errorf("error in run: unexpected returns: %v", rets)
 	}
+	v.markImported(pkgs)
 	return nil
 }
 
@@ -202,7 +232,15 @@ func (v *VM) Eval(sys fs.FS, fname, input string, options ...RunOption) (rets []
 	if err != nil {
 		return nil, fmt.Errorf("error in loadImports: %w", err)
 	}
-	codes, slots, err := compilePkgs(v.globals, pkgs[:len(pkgs)-1], true)
+	// a package an earlier Eval or Load already ran in this VM is imported, not run again (import is a declaration;
+	// Load is what reloads)
+	var fresh []*token
+	for _, p := range pkgs[:len(pkgs)-1] {
+		if path := pkgPath(p); path == "" || !v.imported[path] {
+			fresh = append(fresh, p)
+		}
+	}
+	codes, slots, err := compilePkgs(v.globals, fresh, true)
 	if err != nil {
 		return nil, fmt.Errorf("error in compile (imports): %w", err)
 	}
@@ -210,6 +248,7 @@ func (v *VM) Eval(sys fs.FS, fname, input string, options ...RunOption) (rets []
 	if err != nil {
 		return nil, fmt.Errorf("error in run (imports): %w", err)
 	}
+	v.markImported(fresh)
 
 	v.treeDump(opts.treeDump, pkgs[len(pkgs)-1:])
 	if opts.evalImports == nil {
